@@ -94,3 +94,28 @@ def endian_order(chk, cfg):
             for f in v["fields"]:
                 chk.ob("I-order", "%s.%s" % (a["path"], f["name"]), "Msb0" not in f["ty"], "field type %s uses Msb0" % f["ty"], a["span"], evals=1)
     return loads, stores, views
+
+
+UNCHECKED = re.compile(r"bitvec::.*(_unchecked|get_unchecked|raw_mut|as_mut_bitptr|as_mut_ptr|from_raw_parts|set_len|set_unchecked|split_at_unchecked|align_to)")
+
+
+def unchecked_scan(chk, cfg, rule="R-checked"):
+    """zero-count rule: no unchecked / raw-mutable bitvec accessor anywhere in the crate.
+    The matcher is exercised on a positive example on every run."""
+    assert UNCHECKED.search("bitvec::slice::api::<impl bitvec::slice::BitSlice>::get_unchecked::<std::ops::Range<usize>>")
+    assert UNCHECKED.search("bitvec::vec::BitVec::as_raw_mut_slice")
+    n = 0
+    for b in cfg.bio.bodies:
+        for bl in b["blocks"]:
+            if bl["cleanup"]:
+                continue
+            t = bl["term"]
+            if t["k"] != "call" or "indirect" in t["func"]:
+                continue
+            n += 1
+            key = t["func"].get("resolved_text") or t["func"]["text"]
+            if UNCHECKED.search(key):
+                chk.fail(rule, "%s: %s" % (b["path"], short(key)), "unchecked-accessor",
+                         "uses %s: bounds or aliasing are no longer bitvec's responsibility, out-of-range access may not be refused" % key, t.get("line"))
+    chk.ob(rule + "/scan", "all call sites[%s]" % cfg.name, True, evals=n, sample={"call_sites_scanned": n})
+    return n
